@@ -196,6 +196,10 @@ def ev_shared_config():
     t.parse(clean_qq=True, qq_depth=1)
     tl = _p.TractList([t])
     tl.parse_tracts(config=cfg, clean_qq=True)
+    _p.Tract.from_twprgesec('NE/4', 154, 97, 14, default_ns='s', default_ew='e', config=cfg, parse_qq=True)
+    _p.Tract.from_twprgesec('NE/4', '154', '97', '14', default_ns='s', config=cfg)
+    d.parse_tracts(config=cfg, qq_depth=1)
+    tl.config_tracts(cfg)
     d2 = _p.PLSSDesc('NE/4 of Sec 1, T1-R2', wait_to_parse=True)
     d2.config = cfg
     d2.parse(default_ns='s', default_ew='e', parse_qq=True)
